@@ -36,9 +36,31 @@ func (m *vfTreeModel) deleteBelow(ts uint64) {
 
 func (m *vfTreeModel) reset() { m.n = 0 }
 
+// vfNewTree: the tree under test. With smallbuf=1 the backing buffer starts with room for three
+// pages only, so that almost every new page makes the buffer grow (reallocate), as a tree larger
+// than its initial mapping does.
+func vfNewTree() *Tree {
+	if vfParam("smallbuf", 0) == 0 {
+		return NewTree("vf")
+	}
+	// the buffer's capacity is chosen so that the allocation of a particular page is the one that
+	// reallocates it (bufcap = 8 + (p+1)*pageSize makes page p cross the boundary)
+	bufcap := vfParam("bufcap", 0)
+	if bufcap == 0 {
+		// any of the next few pages may be the one whose allocation reallocates the buffer
+		bufcap = 8 + (4+vfChoice(vfParam("bufpages", 8)))*pageSize
+	}
+	t := &Tree{buffer: NewBuffer(bufcap, "vf")}
+	t.buffer.AllocateOffset(3 * pageSize)
+	t.data = t.buffer.Bytes()
+	t.nextPage = 1
+	t.initRootNode()
+	return t
+}
+
 func vfTreeKV(name string) (uint64, uint64) {
 	k, v := vfU64(name+".k"), vfU64(name+".v")
-	vfAssume(k >= 1 && k <= absoluteMax-1 && v >= 1)
+	vfAssume(k >= 1 && k <= absoluteMax && v >= 1)
 	return k, v
 }
 
@@ -54,9 +76,9 @@ func vfH_C10_Tree() {
 	ops := vfParam("ops", 2)
 	menu := vfParam("menu", 3)
 	vfSet("loop", 64)
-	t := NewTree("vf")
+	t := vfNewTree()
 	m := &vfTreeModel{}
-	var last uint64
+	var last, lastV uint64
 	for i := 0; i < prefix; i++ {
 		k, v := vfTreeKV("p")
 		if i > 0 {
@@ -66,12 +88,38 @@ func vfH_C10_Tree() {
 			case 1:
 				vfAssume(k < last)
 			}
+			if vfParam("sortedvals", 0) == 1 {
+				vfAssume(v > lastV) // values grow with insertion order: DeleteBelow drops whole leaves
+			}
 		}
-		last = k
+		last, lastV = k, v
 		t.Set(k, v)
 		m.set(k, v)
 	}
 	vfBegin()
+	if vfParam("script", 0) == 2 {
+		// pages recycled, then Reset, then enough ascending Sets to split the new root
+		ts := vfU64("ts")
+		t.DeleteBelow(ts)
+		t.Reset()
+		m.reset()
+		var prev uint64
+		for i := 0; i < vfParam("resets", 5); i++ {
+			k, v := vfTreeKV("r")
+			vfAssume(k > prev)
+			prev = k
+			t.Set(k, v)
+			m.set(k, v)
+		}
+		menu = 1
+	}
+	if vfParam("script", 0) == 1 {
+		// DeleteBelow first, then only Sets: stale entries left behind by compaction become visible
+		ts := vfU64("ts")
+		t.DeleteBelow(ts)
+		m.deleteBelow(ts)
+		menu = 1
+	}
 	for i := 0; i < ops; i++ {
 		var allowed [4]int
 		n := 0
